@@ -158,6 +158,20 @@ class VLMMtxRHSComp(om.ExplicitComponent):
 
         system_size = self.system_size
 
+        # Refresh the work arrays from the current inputs; the last compute() may have been at another point
+        # (e.g. a perturbed evaluation during a derivative check).
+        ind_1 = 0
+        ind_2 = 0
+        for surface in surfaces:
+            name = surface["name"]
+            num = (surface["mesh"].shape[0] - 1) * (surface["mesh"].shape[1] - 1)
+            ind_2 += num
+            self.mtx_n_n_3[:, ind_1:ind_2, :] = inputs["{}_{}_vel_mtx".format(name, "coll_pts")].reshape(
+                (system_size, num, 3)
+            )
+            self.normals_n_3[ind_1:ind_2, :] = inputs["{}_normals".format(name)].reshape((num, 3))
+            ind_1 += num
+
         ind_1 = 0
         ind_2 = 0
         for surface in surfaces:
